@@ -187,6 +187,7 @@ def run(tier):
     C.floor("C18/roundtrips", decided, FLOOR_ROUNDTRIPS, "decided print/parse round trips")
 
     check_vcs_field(F, C, mod)
+    check_parsedvcs_printer(F, C, mod)
     check_origin(F, C, mod)
     C.extra["undecided_listed"] = C.analysed.get("undecided", [])
     C.assumptions += ["component atoms are valid values: non-empty, free of whitespace/syntax characters, different from every keyword and prefix",
@@ -194,6 +195,23 @@ def run(tier):
     return C.finish("Each value codec's Display/ToString and FromStr bodies are interpreted over symbolic values "
                     "(literal pieces + opaque atoms); every enumeration variant and every Option-field combination of every record is "
                     "printed and parsed back; the parse result set must be exactly {Ok(v)}. Unknown keywords must yield Err for pure enumerations.")
+
+
+def check_parsedvcs_printer(F, C, mod):
+    """ParsedVcs: the reader (regex + slicing) is not decided, but the printer is: it must write the location
+    verbatim, then ' -b <branch>', then ' [<subpath>]' for the parts that are present"""
+    t = "debian_control::vcs::ParsedVcs"
+    if not C.ob("C18/anchor", t + " Display", roundtrip.printer_of(mod, t) is not None, "printer not found"):
+        return
+    url = symstr.atom("location", "raw")
+    for has_b in (False, True):
+        for has_s in (False, True):
+            v = ("struct", t, (("repo_url", url), ("branch", some(symstr.atom("branch", "word")) if has_b else none()), ("subpath", some(symstr.atom("subpath", "word")) if has_s else none())))
+            renders, _ = roundtrip.render_value(F, mod, v)
+            got = [symstr.show(r) for ctl, r in renders if ctl == OK]
+            want = "<location>" + (" -b <branch>" if has_b else "") + (" [<subpath>]" if has_s else "")
+            C.ob("C18/parsedvcs-print", "branch %s, subpath %s" % ("present" if has_b else "absent", "present" if has_s else "absent"), len(renders) == 1 and got == [want],
+                 "prints %s, expected %r (the location text unchanged)" % (got, want), F.fn(roundtrip.printer_of(mod, t))["sp"] if F.fn(roundtrip.printer_of(mod, t)) else "")
 
 
 def check_vcs_field(F, C, mod):
